@@ -192,9 +192,66 @@ fn bump_arg_case(bump: u8) -> Result<(), String> {
     oracles::c01_vault_invariant(&cur, &w).map(|_| ())
 }
 
+/// An adaptive-fee pool (its address is derived from a fee-tier index that differs from its tick spacing) pays out like any other
+/// pool: deposits, trades, withdrawals through both decrease instructions and the reposition instruction, fee collection.
+fn adaptive_pool_case() -> Result<u64, String> {
+    use super::c20_world as cw;
+    let spec = cw::AfSpec {
+        label: "c01-adaptive".into(),
+        tick_spacing: 64,
+        fee_tier_index: 1024 + 64,
+        base_fee_rate: 3000,
+        protocol_fee_rate: 300,
+        filter_period: 30,
+        decay_period: 600,
+        reduction_factor: 5000,
+        control_factor: 1500,
+        max_volatility_accumulator: 350_000,
+        tick_group_size: 64,
+        major_swap_threshold_ticks: 64,
+        trade_enable_in: None,
+        sqrt_price: stdworlds::P0,
+        arrays: vec![(-1, Enc::Dynamic), (0, Enc::Fixed), (1, Enc::Dynamic)],
+        positions: vec![(-128, 128, false), (128, 5696, true), (-5632, 5696, false)],
+    };
+    let (l, w) = cw::build_af(&spec);
+    let seq = [
+        Op::Inc { pos: 0, liq: stdworlds::BIG, v2: true },
+        Op::Inc { pos: 1, liq: stdworlds::BIG, v2: false },
+        Op::Inc { pos: 2, liq: stdworlds::BIG / 2, v2: true },
+        Op::Swap { a_to_b: false, exact_in: true, amount: 20_000_000, lim: crate::ops::Lim::None, v2: true },
+        Op::Swap { a_to_b: true, exact_in: true, amount: 9_000_000, lim: crate::ops::Lim::None, v2: true },
+        Op::Dec { pos: 0, part: crate::ops::Part::Half, v2: false },
+        Op::Dec { pos: 0, part: crate::ops::Part::All, v2: true },
+        Op::Repos { pos: 1, lower: 192, upper: 5696, liq: 12_345 },
+        Op::Dec { pos: 2, part: crate::ops::Part::All, v2: false },
+        Op::CollectFees { pos: 0, v2: true },
+        Op::CollectFees { pos: 2, v2: false },
+    ];
+    let mut cur = l;
+    let mut n = 0;
+    for op in &seq {
+        let st = ops::apply(&cur, &w, op);
+        if !st.outcome.ok() {
+            return Err(format!("on an adaptive-fee pool (fee-tier index 1088, tick spacing 64), {op:?} fails: {}", st.outcome.short()));
+        }
+        cur = st.ledger;
+        oracles::c01_vault_invariant(&cur, &w).map_err(|e| format!("adaptive-fee pool after {op:?}: {e}"))?;
+        n += 1;
+    }
+    Ok(n)
+}
+
 pub fn run(ctx: &Ctx) -> Report {
     let mut r = Report::new("C01", "model_checking");
     let thorough = !ctx.tier.is_quick();
+    match adaptive_pool_case() {
+        Ok(n) => r.guard("adaptive_fee_pool_operations_paid_out", n),
+        Err(e) => {
+            r.violation("adaptive_pool".into(), e, json!({"kind": "adaptive_pool"}));
+            return r;
+        }
+    }
     let mut bump_cases = 0u64;
     for bump in [0u8, 1, 255] {
         bump_cases += 1;
@@ -271,6 +328,9 @@ pub fn run(ctx: &Ctx) -> Report {
 }
 
 pub fn replay(case: &Value) -> Result<(), String> {
+    if case["kind"].as_str() == Some("adaptive_pool") {
+        return adaptive_pool_case().map(|_| ());
+    }
     if case["kind"].as_str() == Some("bump_arg") {
         return bump_arg_case(case["bump"].as_u64().ok_or("bump")? as u8);
     }
